@@ -158,6 +158,14 @@ class UsertypeFluentsRemover(engines.engine.Engine, CompilerMixin):
             new_kind.set_conditions_kind("EXISTENTIAL_CONDITIONS")
             new_kind.set_conditions_kind("EQUALITIES")
             new_kind.set_conditions_kind("NEGATIVE_CONDITIONS")
+        if (
+            new_kind.has_fluents_in_boolean_assignments()
+            or new_kind.has_static_fluents_in_boolean_assignments()
+        ):
+            # a Boolean assignment with a non-constant value is rewritten as two
+            # conditional effects (on the value and on its negation)
+            new_kind.set_effects_kind("CONDITIONAL_EFFECTS")
+            new_kind.set_conditions_kind("NEGATIVE_CONDITIONS")
         return new_kind
 
     def _compile(
